@@ -839,11 +839,13 @@ def check_backfill(ctx):
                    'an inferred record can be stored without '
                    'directly_assigned being set to the constant False')
         # runner-up keys removed: a pop under a startswith('runner_up')
+        from ..core.guards import facts_at
         ru = False
-        for n2 in cfg.nodes:
-            if n2.kind == 'if' and n2.id in rd.live:
-                tt = n2.ast.test
-                for sub in ast.walk(tt):
+        for pn in pop_nodes:
+            for (_g, test, truth) in facts_at(cfg, rd, pn):
+                if not truth:
+                    continue
+                for sub in ast.walk(test):
                     if isinstance(sub, ast.Call) and isinstance(
                             sub.func, ast.Attribute) \
                             and sub.func.attr == 'startswith' \
@@ -851,12 +853,7 @@ def check_backfill(ctx):
                                 sub.args[0], ast.Constant) \
                             and str(sub.args[0].value).startswith(
                                 'runner_up'):
-                        for (t_, lab) in cfg.succ[n2.id]:
-                            if lab == 'true' and (
-                                    t_ in pop_nodes or any(
-                                        cfg.dominates(t_, pn)
-                                        for pn in pop_nodes)):
-                                ru = True
+                        ru = True
         ctx.ob('R-CONST/backfill-runner-up', 'backfill:runner_up',
                fi.loc(st), ru,
                'runner_up_* keys are removed from inferred records'
